@@ -2051,6 +2051,7 @@ package goatlang
 //@   requires wfC(c) && tok != nil && len(tok.Tokens) >= 2 && tokArr(arr(tok.Tokens)) && (forall j int :: 0 <= j && j < len(tok.Tokens) ==> tok.Tokens[j] != nil)
 //@   ensures#wf wfC(c) && keepsC(c)
 //@   ensures#span c.Optimize ==> optimized(right)
+//@   ensures#skip len(res) >= len(right) + 1 && int(res[len(res)-len(right)-1].A) == len(right) && (forall j int :: 0 <= j && j < len(right) ==> res[len(res)-len(right)+j] == right[j])
 //@
 //@ func (*compiler).compile case "lambda"
 //@   property C20
